@@ -58,6 +58,8 @@ def cases(tier, rnd):
         for k in (1, 2, 3): cs.append(c[:-k]); cs.append(c + world.rand_bytes(rnd, k))
         for bit in range(16):
             x = bytearray(c); x[bit // 8] ^= 1 << (bit % 8); cs.append(bytes(x))
+    for c in caps[:6]:                   # right-sized strings whose magic is not at the front: a capture rotated by one or two bytes, shifted by a nibble
+        cs += [c[-1:] + c[:-1], c[-2:] + c[:-2], c[1:] + c[:1], bytes.fromhex((c.hex()[-1:] + c.hex()[:-1])), b"\0" + c[:-1], b"\0\0" + c[:-2]]
     codes = set(known_codes())
     for k in list(codes):
         for bit in range(16):
@@ -214,6 +216,28 @@ def run_flood(out, rnd, tier):
                      ["1 delivered, 0 unknown-device warnings, other warnings [], 0 escaped exceptions"] * len(names), lambda c: "flood of " + bytes.fromhex(c["d"]).decode(), sample=lambda c: c)
 
 
+def run_while_starting(out, rnd, trials):
+    """datagrams that reach a port the bridge has already bound while start() is still opening its other ports go through the same
+    gate: an unknown-model frame is warned about, anything else is ignored quietly"""
+    async def go():
+        res = []
+        for _ in range(trials):
+            ds = []
+            for k in range(30):
+                if k % 3 == 2: ds.append(world.rand_bytes(rnd, rnd.choice([0, 3, 165, 200])) if rnd.random() < .7 else b"\xfe\xf0" + world.rand_bytes(rnd, 100))
+                else:
+                    x = bytearray(world.rand_bytes(rnd, rnd.choice([159, 165, 168]))); x[0:2] = b"\xfe\xf0"; x[74:76] = rnd.choice([b"\xee\xee", b"\x01\x00", b"\xff\xff"]); x[42:74] = b"early".ljust(32, b"\0"); ds.append(bytes(x))
+            log, nh, nw, complete = await world.feed_bridge(4, [], (), c05.show, sentinel, during_start=ds)
+            early = list(world.feed_bridge.sent_early)
+            want = sum(1 for k in early if expected([ds[k]])[0] == "warned")
+            res.append((len(early), "barrier-lost" if not complete else "%d devices, %d warnings, %d errors" % (len(log), nw, nh), "0 devices, %d warnings, 0 errors" % want))
+        return res
+    res = asyncio.run(go())
+    lib.differential(out, "datagrams-arriving-while-the-bridge-starts", [{"sent_while_starting": n} for n, _, _ in res], [i for _, i, _ in res], None, [e for _, _, e in res],
+                     lambda c: "%d datagrams (unknown-model frames and junk) sent to the first port while start() was still opening the others" % c["sent_while_starting"],
+                     nontrivial=lambda c: c["sent_while_starting"] > 0, sample=lambda c: c, classify=lambda c, i: "during-start/%d" % min(c["sent_while_starting"], 3))
+
+
 def run(tier, rnd, out):
     corpus = lib.load_corpus("C06")
     if corpus: run_direct(out, "corpus", [bytes.fromhex(c["d"]) for c in corpus])
@@ -230,10 +254,14 @@ def run(tier, rnd, out):
     run_pairs(out, rnd)
     run_flood(out, rnd, tier)
     run_split_and_ports(out, rnd)
+    run_while_starting(out, rnd, 6 if tier == "quick" else 60)
     out.exhaustive = tier == "thorough"
     out.notes.append("thorough enumerates all 65536 model codes on each accepted length")
 
 
 def replay(rp, out):
+    if "sent_while_starting" in rp["input"]:
+        import random
+        return run_while_starting(out, random.Random(int(rp.get("seed", 1))), 20)
     d = bytes.fromhex(rp["input"]["d"])
     (run_bridge if rp.get("stream") == "through-a-running-bridge" else run_direct)(out, rp.get("stream", "replay"), [d])
